@@ -26,9 +26,10 @@ Record fixes := mk_fixes {
   fx_erase : bool;     (* TermNames::eraseTermName drops the map entry with its last name *)
   fx_assert : bool;    (* assertions.push only after insertFormula succeeded *)
   fx_pop : bool;       (* pop n checks n <= level before popping anything *)
-  fx_names : bool      (* names inserted while parsing a command that is then rejected are rolled back *)
+  fx_names : bool;     (* names inserted while parsing a command that is then rejected are rolled back *)
+  fx_guard : bool      (* TermNames::popScope does nothing when no scope is open *)
 }.
-Definition as_is : fixes := mk_fixes false false false false.
+Definition as_is : fixes := mk_fixes false false false false false.
 
 Inductive status := StUndef | StSat | StUnsat | StUnknown.
 Inductive resp := ROk | RErr | ROut.       (* silent success / at least one (error ...) line / output, no error *)
@@ -114,7 +115,7 @@ Definition push1 (b : book) : book :=
 Definition pop1 (fx : fixes) (b : book) : option book :=
   match b_frames b with
   | _ :: (_ :: _) as rest =>
-      match pop_scope (fx_erase fx) (b_global b) (b_names b), df_pop (b_defs b) with
+      match pop_scope (fx_erase fx) (fx_guard fx) (b_global b) (b_names b), df_pop (b_defs b) with
       | Some x, Some d =>
           Some (mk_book (b_init b) (b_global b) (b_models b) (b_cores b) (b_itp b) (b_assign b) (b_assertions b)
                         (b_inserted b) rest (b_parts b) x d (b_decls b) (b_sorts b) (b_status b))
